@@ -81,6 +81,11 @@ CHECKS = {
    text="Breadth-first search with full-state keys (private screen state, reference terminal registers, application-state model) over 23 operations (EnableMouse with five flag sets, DisableMouse, paste and focus on/off, six cursor style/colour settings, SetTitle, Show/HideCursor, draw+Show, Suspend, Resume, Fini) to depth 5 on xterm-256color (thorough 10, where the frontier closes) and depth 3 on one representative per mode-signature class of the 45 family entries (thorough: every entry), each with TCELL_ALTSCREEN unset and disabled. At every Suspend and Fini the reference terminal's registers must be back to the pre-engage values and the Tty call log must satisfy the contract; at every Resume exactly the application's modes must be on again.",
    note="Registers are those of the project's reference terminal; 30 s watchdog on Suspend/Fini; the quick tier is depth-bounded (evidence reports whether the frontier closed).",
    design="2/C04"),
+ "C18": dict(level="model_checking",
+   technique="explicit-state BFS over draw/SetSize/cursor/lock histories on the real SimulationScreen against the shared shadow model, plus exhaustive enumeration of injectable characters per charset and of short Inject* sequences",
+   text="Draw histories (depth 4, thorough 5; states merged on GetContents + private logical buffer + model) in UTF-8, ISO8859-1 and US-ASCII over a wide-rune/style/fallback alphabet and a SetSize/cursor/lock alphabet: after every Show/Sync the reported physical cells must equal the shadow model (Runes, resolved Style, Bytes under the fallback chain), GetCursor must reflect ShowCursor, SetSize must preserve the overlap and yield exactly one EventResize with the new size. Injection: every printable BMP character (thorough: to U+2FFFF) of all 24 stateless charsets through InjectKeyBytes alone, all 2- and 3-character texts over representatives of every encoded length (multi-byte last), and all sequences up to length 3 of InjectKey/InjectMouse/InjectKeyBytes, compared with PollEvent's output order.",
+   note="Cells covered by a wide rune, locked cells and trailing padding of Bytes are not compared; the cursor reset by SetSize is followed, not judged.",
+   design="2/C18"),
  # --- new checks above this line ---
 }
 
